@@ -78,6 +78,14 @@ def feasible(rows, nb, x, inst, W, H):
     return None
 
 
+def harness_feasible(tier, seed):
+    """C01 view of the same runs: only infeasible results / exceptions count."""
+    rep = harness(tier, seed)
+    rep["name"] = "decode_feasibility"
+    rep["violations"] = [v for v in rep["violations"] if "differs" not in v[0]]
+    return rep
+
+
 def harness(tier, seed):
     from contracts.binpacking import garbage, rand_instance, rand_signed_perm
     from moptipyapps.binpacking2d.encodings.ibl_encoding_1 import ImprovedBottomLeftEncoding1
